@@ -7,7 +7,7 @@ from vf import registry
 
 props = [json.loads(l) for l in open(os.path.join(ROOT, 'properties.jsonl'))]
 NA = {
-    'C07': 'full period 2^n-1 is a closed number-theoretic theorem about the reference transition (primitivity of its characteristic polynomial; needs the factorisation of 2^n-1 up to n=512): no contract on a function of /repo expresses or decides it; the code-dependent residue (step equals the reference T, zero state unreachable by seeding) is decided under C01/C04/C08 (DESIGN.md section 8)',
+    'C07': 'full period 2^n-1 is a closed number-theoretic theorem about the reference transition (primitivity of its characteristic polynomial; needs the factorisation of 2^n-1 up to n=512): no contract on a function of /repo expresses or decides it; the code-dependent residue is decided elsewhere: the step equals the reference T (C01/C04), T is injective and maps only 0 to 0 so a non-zero state never steps to zero (lemmas *_injective / *_zero_only_from_zero under C08), no seeding path yields zero (C08) (DESIGN.md section 8)',
 }
 PENDING = 'check not built yet (build in progress; see DESIGN.md section 5)'
 checks = []
